@@ -102,6 +102,22 @@ Definition spec_outcome (inv : invocation) (g : bool) : outcome :=
          (if g then Some (spec_visits (i_fields inv)) else None)
          (if g then spec_ticks (i_fields inv) else []).
 
+(** With the cargo feature `log`, the DISABLED branch of a macro hands its fields to the `log` crate (documented
+    behaviour, property C18): the expressions are then evaluated although no collector sees them.  This happens
+    exactly when: the level passes log's compile-time cap, no dispatcher has ever been set in the process (unless
+    `log-always`), and - for events only - the level passes `log::max_level()` and the logger wants the record. *)
+Definition spec_log_formats (ls : logstate) (k : mkind) : bool :=
+  let wants := match k with MEvent => l_max_level_ok ls && l_logger_enabled ls | MSpan => true end in
+  match l_mode ls with
+  | LogOff => false
+  | LogOn => l_static_ok ls && negb (l_dispatch_ever ls) && wants
+  | LogAlways => l_static_ok ls && wants
+  end.
+Definition spec_outcome_log (ls : logstate) (inv : invocation) (g : bool) : outcome :=
+  mk_out (spec_names (i_fields inv))
+         (if g then Some (spec_visits (i_fields inv)) else None)
+         (if g then spec_ticks (i_fields inv) else if spec_log_formats ls (i_kind inv) then spec_ticks (i_fields inv) else []).
+
 (** The modelled form grammar: a known prefix set, the brace form only on events, plain values of `Value` types. *)
 Definition valid_prefix (k : mkind) (p : string) : bool :=
   match k with
